@@ -237,7 +237,7 @@ PROPS = {
                  "versions, flags, counts, lengths, offsets, values; all of them in thorough; in quick a 2000-per-seed sample plus the extremes 0 / max-1 / max "
                  "of EVERY field), directed size+count pairs (every count field together with the sizes of its 1..3 innermost enclosing boxes raised to "
                  "~2^24 / 2^31 / 2^32), pairwise substitution of near-by fields, byte-level havoc (flips, runs, deletes, duplicates, splices of two seeds, "
-                 "truncation, fourcc swaps), directed size+offset pairs, 18 amplifier families, and 16 000 (thorough 200 000) freshly generated plain and fragmented movies, each as a "
+                 "truncation, fourcc swaps), directed size+offset pairs, 19 amplifier families, and 16 000 (thorough 200 000) freshly generated plain and fragmented movies, each as a "
                  "file, as media segment against its own initialisation segment, and with one havoc variant. Every input is opened (read_header, and read_fragment_header against three opened initialisation segments) and, when it "
                  "opens, every accessor is called: movie and track accessors, metadata, to_json/summary/box_size of every parsed box, sample_count, "
                  "sample_offset and read_sample for ids 0..16, count-1..count+2, 2^31, 2^32-1 and track ids 0 / present / max+1. A panic hook records "
@@ -259,7 +259,7 @@ PROPS = {
         "rule": ("the C06 corpus and mutators under an instrumented stream: per call (open, open-as-fragment, each sample read / accessor group) at "
                  "most 4000 + 16 n stream operations and 1 MiB + 16 n transferred bytes (n = input length; the stream returns an error when exceeded, "
                  "so a reader that loops without consuming input terminates with evidence) and at most 50 ms + 2 us x n thread CPU time, counted only "
-                 "if the minimum over three runs exceeds it; 18 amplifier families (many containers with a tiny child, many tracks x many movie fragments, zero-size child in moov/trak/stbl/udta/moof, sub-header-size boxes "
+                 "if the minimum over three runs exceeds it; 19 amplifier families (many sample description boxes with a huge entry count, many containers with a tiny child, many tracks x many movie fragments, zero-size child in moov/trak/stbl/udta/moof, sub-header-size boxes "
                  "at top level and inside moov, many traks whose parameter-set lengths reach the end of the file, counts of 2^32-1 without payload, "
                  "runs declaring 2^32-1 samples without fields, nested overrun chains, many rewinding meta boxes, many emsg, many sample entries whose "
                  "descriptor chain overruns into the following ones, many track fragments with long runs) are emitted at sizes n, 2n, 4n, 8n; between "
